@@ -50,7 +50,7 @@ func (p *Prog) resolveKinds() (*Kinds, error) {
 	sort.Strings(k.All)
 	hasField := func(s *types.Struct, name string) bool {
 		for i := 0; i < s.NumFields(); i++ {
-			if s.Field(i).Name() == name {
+			if canonFieldName(s, i) == name {
 				return true
 			}
 		}
